@@ -52,8 +52,13 @@ def build_repo(rng, root, big=False):
                 if rng.random() < 0.4:
                     put('%s/files/%s/nested.conf' % (d, rng.choice(['sub', 'files', 'tmpfiles', 'init.d'])), blob(10))
             if rng.random() < 0.4:
-                # pre-existing package Manifest carrying DIST entries
-                put(d + '/Manifest', ('DIST %s-1.0.tar.gz 1234 BLAKE2B %s SHA512 %s\n' % (p, 'ab' * 64, 'cd' * 64)).encode())
+                # pre-existing package Manifest carrying DIST entries (one of them may bear the name of a file
+                # in files/: a distfile and a patch are different things)
+                dist = ['%s-1.0.tar.gz' % p]
+                if rng.random() < 0.4:
+                    dist.append('%s.patch' % p)
+                put(d + '/Manifest', ''.join('DIST %s 1234 BLAKE2B %s SHA512 %s\n' % (n, 'ab' * 64, 'cd' * 64)
+                                             for n in dist).encode())
             if rng.random() < 0.6:
                 put('metadata/md5-cache/%s/%s-1.0' % (c, p), b'DEFINED_PHASES=-\n')
     for k in range(rng.randrange(0, 3)):
